@@ -150,8 +150,21 @@ fn exec_step(gi: usize, t: usize, s: &Value, guards: &mut Vec<dispatch::DefaultG
     match op.as_str() {
         "install_tracer" => {
             let mut b = tracing_log::LogTracer::builder().with_max_level(log_filter(s["max"].as_u64().unwrap_or(5)));
-            for p in s["ignore"].as_array().cloned().unwrap_or_default() {
-                b = b.ignore_crate(p.as_str().unwrap_or("").to_string());
+            // the ignore list is built through any mix of `ignore_crate` and `ignore_all` calls, in plan order
+            let ign: Vec<String> = s["ignore"].as_array().cloned().unwrap_or_default().iter().map(|p| p.as_str().unwrap_or("").to_string()).collect();
+            let how = s["ignore_how"].as_u64().unwrap_or(0);
+            match how {
+                // one ignore_all
+                1 => b = b.ignore_all(ign.clone()),
+                // the first by ignore_crate, the rest by one ignore_all
+                2 if !ign.is_empty() => b = b.ignore_crate(ign[0].clone()).ignore_all(ign[1..].to_vec()),
+                // two ignore_all calls
+                3 if !ign.is_empty() => b = b.ignore_all(ign[..1].to_vec()).ignore_all(ign[1..].to_vec()),
+                _ => {
+                    for p in &ign {
+                        b = b.ignore_crate(p.clone());
+                    }
+                }
             }
             h.ok = b.init().is_ok();
         }
@@ -298,8 +311,8 @@ impl Engine for LogEngine {
             for i in 0..n {
                 let t = rng.below(nthreads);
                 if i == install_at {
-                    let ignore: Vec<&str> = (0..rng.below(3)).map(|_| *rng.pick(&["hyper", "tokio", "app::db", "other"])).collect();
-                    steps.push(json!({"t": t, "op": "install_tracer", "max": rng.range(2, 5), "ignore": ignore}));
+                    let ignore: Vec<&str> = (0..rng.below(4)).map(|_| *rng.pick(&["hyper", "tokio", "app::db", "other"])).collect();
+                    steps.push(json!({"t": t, "op": "install_tracer", "max": rng.range(2, 5), "ignore": ignore, "ignore_how": rng.below(4)}));
                 }
                 if created == 0 || (created < 3 && rng.chance(1, 6)) {
                     let prefixes: Vec<&str> = (0..rng.below(3)).map(|_| *rng.pick(&["app", "hyper", "app::db", "tokio", "other"])).collect();
